@@ -1,0 +1,83 @@
+//go:build verif
+
+// Machine-checked contracts for package evaluator. This file contains only
+// comments: it is read by /verif/bin/evyvc, never compiled into a binary.
+// Syntax and semantics are described in /verif/DESIGN.md section 2.2.
+
+package evaluator
+
+//@ global ErrPanic != nil && ErrIndexValue != nil && ErrBounds != nil && ErrSlice != nil && ErrMapKey != nil
+//@ global wraps(ErrIndexValue, ErrPanic) && wraps(ErrBounds, ErrPanic) && wraps(ErrSlice, ErrPanic) && wraps(ErrMapKey, ErrPanic)
+//@ global !wraps(ErrIndexValue, ErrBounds) && !wraps(ErrBounds, ErrIndexValue) && !wraps(ErrSlice, ErrBounds) && !wraps(ErrSlice, ErrIndexValue)
+
+//@ typeinv arrayVal: self.Elements != nil
+//@ typeinv stringVal: base(self.runeSlice) == 0 || (len(self.runeSlice) == rlen(self.V) && off(self.runeSlice) == 0 && contents(self.runeSlice) == runes(self.V))
+
+// ---- spec functions (docs/spec.md, Index and Slice) ----
+// okIdx: v is a valid index into a sequence of n elements; okBound: v is a valid slice bound.
+//@ pure okIdx(v float64, n int) bool = isIntegral(v) && float(-n) <= v && v <= float(n-1)
+//@ pure okBound(v float64, n int) bool = isIntegral(v) && float(-n) <= v && v <= float(n)
+// normOf: position denoted by index v, counting from the end for negative v.
+//@ pure normOf(v float64, n int) int = ite(int(v) < 0, n+int(v), int(v))
+//@ pure isBasic(x value) bool = is(x, *numVal) || is(x, *stringVal) || is(x, *boolVal)
+//@ pure isComposite(x value) bool = is(x, *arrayVal) || is(x, *mapVal)
+//@ pure isValue(x value) bool = (isBasic(x) || isComposite(x) || is(x, *anyVal)) && ref(x) != 0
+
+//@ func normalizeIndex(idx value, length int, indexType indexType) (r int, err error)
+//@   props C11 C02
+//@   ints bv64
+//@   requires 0 <= length && length <= 1<<53
+//@   requires is(idx, *numVal) && idx.(*numVal) != nil
+//@   requires indexType == indexExpression || indexType == sliceExpression
+//@   let v = idx.(*numVal).V
+//@   let limit = ite(indexType == sliceExpression, length, length-1)
+//@   ensures[C11 ok-iff] err == nil <==> isIntegral(v) && float(-length) <= v && v <= float(limit)
+//@   ensures[C11 range] err == nil ==> 0 <= r && r <= limit
+//@   ensures[C11 norm] err == nil ==> r == normOf(v, length)
+//@   ensures[C11 value] err == nil ==> ite(v >= 0, float(r) == v, float(r-length) == v)
+//@   ensures[C11 bounds-kind] err != nil && isIntegral(v) && -9223372036854775808.0 <= v && v < 9223372036854775808.0 ==> wraps(err, ErrBounds)
+//@   ensures[C11 value-kind] !isIntegral(v) ==> wraps(err, ErrIndexValue)
+//@   ensures[C11 panic-kind] err != nil ==> wraps(err, ErrPanic)
+//@   ensures[C11 zero] err != nil ==> r == 0
+//@   mustfail ensures[C11 canary] err == nil ==> r < limit
+//@   modifies nothing
+
+//@ func normalizeSliceIndices(start value, end value, length int) (s int, e int, err error)
+//@   props C11 C02
+//@   requires 0 <= length && length <= 1<<53
+//@   requires start != nil ==> is(start, *numVal) && start.(*numVal) != nil
+//@   requires end != nil ==> is(end, *numVal) && end.(*numVal) != nil
+//@   let sv = start.(*numVal).V
+//@   let ev = end.(*numVal).V
+//@   let S = ite(start == nil, 0, normOf(sv, length))
+//@   let E = ite(end == nil, length, normOf(ev, length))
+//@   ensures[C11 ok-iff] err == nil <==> (start == nil || okBound(sv, length)) && (end == nil || okBound(ev, length)) && S <= E
+//@   ensures[C11 result] err == nil ==> s == S && e == E
+//@   ensures[C11 range] err == nil ==> 0 <= s && s <= e && e <= length
+//@   ensures[C11 slice-kind] (start == nil || okBound(sv, length)) && (end == nil || okBound(ev, length)) && err != nil ==> wraps(err, ErrSlice)
+//@   ensures[C11 panic-kind] err != nil ==> wraps(err, ErrPanic)
+//@   ensures[C11 zero] err != nil ==> s == 0 && e == 0
+//@   modifies nothing
+
+//@ func (a *arrayVal) Index(idx value) (r value, err error)
+//@   props C11 C02
+//@   requires is(idx, *numVal) && idx.(*numVal) != nil
+//@   let v = idx.(*numVal).V
+//@   let n = len(*a.Elements)
+//@   ensures[C11 ok-iff] err == nil <==> okIdx(v, n)
+//@   ensures[C11 element] err == nil ==> 0 <= normOf(v, n) && normOf(v, n) < n && r == (*a.Elements)[normOf(v, n)]
+//@   ensures[C11 panic-kind] err != nil ==> wraps(err, ErrPanic) && r == nil
+//@   mustfail ensures[C11 canary] err == nil ==> r == (*a.Elements)[0]
+//@   modifies nothing
+
+//@ func (a *arrayVal) SetIndex(idx value, val value) (err error)
+//@   props C11 C02
+//@   requires is(idx, *numVal) && idx.(*numVal) != nil
+//@   let v = idx.(*numVal).V
+//@   let n = len(*a.Elements)
+//@   ensures[C11 ok-iff] err == nil <==> okIdx(v, n)
+//@   ensures[C11 stored] err == nil ==> (*a.Elements)[normOf(v, n)] == val
+//@   ensures[C11 others] forall(j, int, 0 <= j && j < n && (err != nil || j != normOf(v, n)) ==> (*a.Elements)[j] == old((*a.Elements)[j]))
+//@   ensures[C11 shape] *a.Elements == old(*a.Elements) && a.Elements == old(a.Elements)
+//@   ensures[C11 panic-kind] err != nil ==> wraps(err, ErrPanic)
+//@   modifies (*a.Elements)[*]
